@@ -28,6 +28,7 @@ def main(tier):
         inv = ('Emit', 'AlgoEqDecl') if (tier == 'thorough' or label in ('attr1', 'logic4', 'struct3')) else ('Emit',)
         replay.run_cfg(chk, module, consts, label, invariants=inv)
     trace_part(chk, tier)
+    parsed_part(chk, tier)
     ir_part(chk, tier)
     from harness import parsebind
     parsebind.part(chk, tier, 'trace-parse', n_quick=400, n_thorough=6000, seed=1)      # text -> IR computed by Lexer + ParseSel + Ir
@@ -65,6 +66,57 @@ def trace_part(chk, tier):
     import json
     e = json.loads(lines[0])
     chk.sample({'trace_event': {'css': e['css'], 'target': e['target'], 'res': e['res'], 'nodes': len(e['doc']['parent'])}}, cap=13)
+
+
+PARSED = [
+    # text kept in NavigableString SUBCLASSES (Stylesheet, Script, TemplateString, RubyTextString ...) is text like any other
+    '<html><head><style>p { color: red }</style><script>var a = 1;</script><style></style><script> </script></head><body>'
+    '<ruby>kan<rt>ji</rt><rp>(</rp><rt></rt></ruby><template>t<b>u</b></template><textarea>v</textarea><pre>\n</pre><p><!--c--></p><p> </p><p>x</p></body></html>',
+    # names and attribute names whose stored spelling keeps upper-case letters (html5lib: SVG / MathML)
+    '<div><svg viewBox="0 0 1 1" preserveAspectRatio="none"><foreignObject><p title="T">f</p></foreignObject><clipPath id="c"><rect/></clipPath></svg>'
+    '<math definitionURL="u"><mi>x</mi></math><p Title="t">g</p></div>',
+]
+
+
+def parsed_part(chk, tier):
+    """B2 on trees made by the parsers themselves (html.parser, lxml, html5lib, lxml-xml): projected back to Dom records, the recorded
+    selects are validated by TLC against CssDecl."""
+    import json
+    from harness import dom, trace, gen
+    from harness.common import cps
+    sv, bs4 = common.import_repo()
+    S = lambda k, **kw: dict({'k': k}, **kw)  # noqa: E731
+    T = lambda n: {'k': 'type', 'ns': gen.BARE, 'name': cps(n)}  # noqa: E731
+    A = lambda n, op='ex', v='': {'k': 'attr', 'ns': gen.BARE, 'name': cps(n), 'op': op, 'val': cps(v), 'flag': 'n'}  # noqa: E731
+    cx = lambda *c: [{'cs': [list(c)], 'cb': []}]  # noqa: E731
+    sels = [cx(S('empty')), cx(S('not', args=cx(S('empty')))), cx(T('style'), S('empty')), cx(T('script'), S('empty')), cx(T('rt'), S('empty')),
+            cx(T('template'), S('empty')), cx(S('has', args=[{'comb': '>', 'cx': cx(S('empty'))[0]}])), cx(T('p'), S('empty')),
+            cx(A('viewBox')), cx(A('viewbox')), cx(A('VIEWBOX')), cx(A('preserveAspectRatio', 'eq', 'none')), cx(A('preserveaspectratio')),
+            cx(A('definitionURL')), cx(A('definitionurl', 'pre', 'u')), cx(A('title')), cx(A('Title', 'eq', 'T')), cx(A('TITLE', 'eq', 't')),
+            cx(T('foreignObject')), cx(T('foreignobject')), cx(T('clipPath'), A('id')), cx(S('not', args=cx(A('viewBox')))),
+            [{'cs': [[T('clipPath')], [T('rect')]], 'cb': ['>']}], [{'cs': [[T('svg')], [T('p')]], 'cb': [' ']}]]
+    from harness import sel as selmod
+    lines = []
+    for dn, markup in enumerate(PARSED):
+        for parser in ('html.parser', 'lxml', 'html5lib', 'xml'):
+            try:
+                soup = bs4.BeautifulSoup(markup, parser)
+                d, nodes = dom.project(soup, bs4)
+            except Exception as e:
+                chk.machinery('parsed part: %s on document %d: %s' % (parser, dn, e))
+                continue
+            idmap = dom.ids_of(nodes)
+            root = min([i + 1 for i, (p, k) in enumerate(zip(d['parent'], d['kind'])) if p == 0 and k == 'e'] or [0])
+            for j, ast in enumerate(sels):
+                css = selmod.selector_list(ast)
+                ev = {'id': 'pd%d.%s.%d' % (dn, parser, j), 'doc': d, 'sel': ast, 'nsmap': [], 'scope': root, 'target': 0, 'css': css, 'text': cps(css)}
+                try:
+                    ev['res'] = [idmap[id(t)] for t in sv.select(css, soup)]
+                except Exception as e:
+                    ev['res'] = [-2]
+                    ev['exc'] = type(e).__name__
+                lines.append(json.dumps(ev))
+    trace.validate(chk, lines, 'Trace_Select', 'trace-parsed')
 
 
 def ir_part(chk, tier):
